@@ -17,7 +17,9 @@ from math import ceil
 import numpy as np
 
 from . import morphological, polynomial, spline, whittaker
-from .._validation import _check_optional_array, _get_row_col_values
+from .._validation import (
+    _check_optional_array, _check_scalar_variable, _get_row_col_values
+)
 from ..api import Baseline
 from ..utils import _check_scalar, _sort_array2d
 from ._algorithm_setup import _Algorithm2D
@@ -219,6 +221,11 @@ class _Optimizers(_Algorithm2D):
                 y, estimation_poly_order, weight_array, baseline_func, **method_kws
             )
         else:
+            # validate the values before they are cast to integers
+            _check_scalar_variable(
+                poly_order, allow_zero=True, variable_name='polynomial order', two_d=True,
+                dtype=int
+            )
             poly_orders, scalar_poly_order = _check_scalar(poly_order, 2, True, dtype=int)
             if scalar_poly_order:
                 poly_orders[1] += 1  # add 1 since they are initially equal if scalar input
